@@ -607,7 +607,18 @@ def check_c03(an):
         if rep and (rep["samples"] or rep["cap"] != 0):
             out.append(V("C03", "test_mode_stores_samples", "test mode stored samples (len %d, capacity %d)" % (len(rep["samples"]), rep["cap"])))
         return out, info
-    if cfg.tuned or not limits_off:
+    limit_not_reached = False
+    if (not cfg.tuned) and cfg.tsc and cfg.max_ns is not None and cfg.min_ns in (None, 0) and an.rounds:
+        # a max_time is set: the exact-count clause still applies if, by the documented rule, the budget was not used up after
+        # the last round that ran (stopping short of the configured count is then not the time limit's doing)
+        if cfg.skip == 1:
+            elapsed = sum(max(1000, max(cfg.conv(w.ticks()) for w in wins.values())) for wins in an.rounds)
+        else:
+            init, _n = an.initial_start()
+            elapsed = cfg.conv(max(w.e.a for w in an.rounds[-1].values()) - init.a) if init is not None else None
+        limit_not_reached = elapsed is not None and elapsed < cfg.max_ps()
+        info["runs_with_unreached_max_time"] = int(limit_not_reached)
+    if cfg.tuned or not (limits_off or limit_not_reached):
         # the exact-count clause needs s and n in force and no time limit
         if rep and rep["stats"] and "panic" not in rep["stats"]:
             st = rep["stats"]
